@@ -53,12 +53,12 @@ CHECKS['C12'] = dict(
                   dict(tu='c12_bmp', group='matrix'), dict(tu='c12_pnm', group='matrix'), dict(tu='c12_targa', group='matrix'),
                   dict(tu='c12_png', group='matrix'), dict(tu='c12_jpeg', group='matrix'), dict(tu='c12_tiff_a', group='matrix')]),
     witnesses_required=dict(
-        quick=['types_bmp', 'types_pnm', 'types_targa', 'types_png', 'types_jpeg', 'types_tiff', 'tiff_strip', 'tiff_tiled',
+        quick=['types_bmp', 'types_pnm', 'types_targa', 'types_png', 'types_jpeg', 'types_tiff', 'tiff_strip', 'tiff_tiled', 'tiff_tile32x16-none', 'tiff_tile16x32-none',
                'tiff_strip-lzw', 'tiff_tile16-lzw', 'tiff_strip-packbits', 'tiff_strip-adobe-deflate', 'tiff_strip-deflate',
                'org_image', 'org_subview', 'org_subsampled21', 'org_flipped_ud', 'org_planar',
                'dest_name', 'dest_FILE', 'dest_ostream', 'content_tags', 'content_min', 'content_max', 'content_checker',
                'width_not_multiple_of_4', 'width_not_multiple_of_8'],
-        thorough=['types_bmp', 'types_pnm', 'types_targa', 'types_png', 'types_jpeg', 'types_tiff', 'tiff_strip', 'tiff_tiled',
+        thorough=['types_bmp', 'types_pnm', 'types_targa', 'types_png', 'types_jpeg', 'types_tiff', 'tiff_strip', 'tiff_tiled', 'tiff_tile32x16-none', 'tiff_tile16x32-none',
                   'tiff_strip-lzw', 'tiff_tile16-lzw', 'tiff_strip-packbits', 'tiff_strip-adobe-deflate', 'tiff_strip-deflate',
                   'org_image', 'org_subview', 'org_subsampled21', 'org_flipped_ud', 'org_planar',
                   'dest_name', 'dest_FILE', 'dest_ostream', 'content_tags', 'content_min', 'content_max', 'content_checker',
